@@ -44,8 +44,8 @@ pub struct DiffStats {
 /// Run `prog` on a semi-naive and a naive engine in lockstep. Returns stats, or None if stopped early.
 pub fn seminaive_diff(prog: &Prog, with_model: bool, out: &mut Outcome) -> DiffStats {
     let mut stats = DiffStats { iterations_changed: 0, late_rule_fired: false, rulesets_run: 0 };
-    let mut a = egglog::EGraph::default();
-    let mut b = egglog::EGraph::default();
+    let mut a = engine();
+    let mut b = engine();
     b.seminaive = false;
     if !declare(&mut a, &prog.sig, out) || !declare(&mut b, &prog.sig, out) {
         return stats;
